@@ -337,6 +337,18 @@ def check_case(st, widths=False):
         w = check_widths(st, obs, proj)
         if w:
             return w, case, None
+        # the very same spec objects evaluated a second time: nothing of the first failure may leak into
+        # the second trace
+        again = frames.execute(tree, plan, hook=False, prebuilt=obs['prebuilt'])
+        if again['out'] != 'err':
+            return 'a second evaluation of the same spec objects succeeded', case, None
+        try:
+            msg2 = str(again['error'])
+        except Exception as ex:
+            return 'str(error) of a second evaluation raised %s' % type(ex).__name__, case, None
+        strip = lambda m: re.sub(r'0x[0-9a-f]+', '0x', m.split('\nTraceback')[0])
+        if strip(msg2) != strip(msg):
+            return 'a second evaluation of the same spec objects gives another message: %r' % (strip(msg2)[:400],), case, None
     return None, case, drift
 
 
